@@ -29,7 +29,7 @@ RULE = ('one foreign .trashinfo per case (absolute / relative Path, percent-esca
         'distinct = (content features, trash-dir kind, home mode)')
 ASSUMPTIONS = ['for a relative Path in the home trash the spec defines no base: only agreement between the commands is required there',
                'trash-rm has no --trash-dir option and is skipped for custom trash directories']
-PROBES = ['trash-dir-through-cross-volume-symlink', 'several-trash-dir-options', 'four-way-agree', 'relative-path', 'absolute-path', 'home-own-volume', 'custom-trash-dir', 'duplicate-keys', 'crlf', 'escapes',
+PROBES = ['path-value-over-4k', 'trash-dir-through-cross-volume-symlink', 'several-trash-dir-options', 'four-way-agree', 'relative-path', 'absolute-path', 'home-own-volume', 'custom-trash-dir', 'duplicate-keys', 'crlf', 'escapes',
           'non-utf8-escape', 'empty-threshold-checked', 'rm-checked', 'restore-checked', 'undated']
 TECHNIQUE = 'deterministic simulation, four-way differential of the readers on rebuilt worlds plus comparison with an independent spec decoder; TRASH_DATE sweeps the purge threshold'
 LEVEL_TEXT = 'seeded exploration of .trashinfo contents x trash-dir kinds; agreement of list / restore / rm / empty on path and date, and with the spec'
@@ -119,7 +119,13 @@ def gen(rng):
     nm = rng.choice(['foreign', 'with space', 'per%cent', 'pl+us', 'ü', 'semi;colon'])
     base = (home + '/w') if top is None else (L['work'][top])
     loc = base + '/' + nm
+    longpath = rng.random() < 0.06
+    if longpath:
+        # a deep location made of bytes that all need escaping: the Path value is 3 times as long as the path (5-12 KB)
+        loc = base + '/' + '/'.join(rng.choice(['é', 'ж', '日']) * rng.choice([60, 80]) + str(k_) for k_ in range(rng.randint(9, 14))) + '/' + nm
     content, feats = gen_content(rng, loc, top)
+    if longpath:
+        feats.append('path-value-over-4k')
     G.add_trashed(steps, tdir, 'fe', None, None, rng.choice(['file', 'dir']), info_content=content, tag='f')
     if rng.random() < 0.5:
         G.add_trashed(steps, tdir, 'neighbour', TG.pct(base + '/neighbour' if top is None else 'docs/neighbour'), '2022-02-02T02:02:02', 'file', tag='n')
@@ -168,7 +174,7 @@ def check(sim, case, st):
         if tdir.endswith('/ctlink'):
             st.probes['trash-dir-through-cross-volume-symlink'] += 1
     for f, p in (('dup-path', 'duplicate-keys'), ('dup-date', 'duplicate-keys'), ('crlf', 'crlf'), ('mixedcase-escapes', 'escapes'),
-                 ('non-utf8-escape', 'non-utf8-escape')):
+                 ('non-utf8-escape', 'non-utf8-escape'), ('path-value-over-4k', 'path-value-over-4k')):
         if f in feats:
             st.probes[p] += 1
     # spec reading
